@@ -23,10 +23,11 @@ impl Scalar {
 
     /// Create a scalar from its little-endian byte representation, if it is lower than the group order
     pub fn from_bytes_canonical(bytes: &[u8; 32]) -> Option<Self> {
+        // little endian, as the scalar bytes it is compared with
         const L: [u8; 32] = [
-            0x10, 0x00, 0x00, 0x00, 0x00, 0x00, 0x00, 0x00, 0x00, 0x00, 0x00, 0x00, 0x00, 0x00,
-            0x00, 0x00, 0x14, 0xde, 0xf9, 0xde, 0xa2, 0xf7, 0x9c, 0xd6, 0x58, 0x12, 0x63, 0x1a,
-            0x5c, 0xf5, 0xd3, 0xed,
+            0xed, 0xd3, 0xf5, 0x5c, 0x1a, 0x63, 0x12, 0x58, 0xd6, 0x9c, 0xf7, 0xa2, 0xde, 0xf9,
+            0xde, 0x14, 0x00, 0x00, 0x00, 0x00, 0x00, 0x00, 0x00, 0x00, 0x00, 0x00, 0x00, 0x00,
+            0x00, 0x00, 0x00, 0x10,
         ];
 
         fn check_s_lt_l(s: &[u8; 32]) -> bool {
